@@ -2,7 +2,7 @@
     is run at the concrete field on the data of one observed verification (single chunk) and compared
     with what the implementation did.  Result code: 0 = agreement; otherwise a sum of
     1 (Ok/Err class), 2 (masks), 4 (static scalars), 8 (dynamic scalars), 16 (per-proof transcript
-    operations), 32 (weight transcript operations), 64 (number of weight draws). *)
+    operations up to the last challenge), 128 (all per-proof transcript operations), 32 (weight transcript operations), 64 (number of weight draws). *)
 From Coq Require Import ZArith NArith List Uint63 Bool.
 From Bignums Require Import BigZ.
 From BP Require Import Base.Field Model.Codec Model.Transcript Model.Verifier Model.VerifyTop Exec.Zl Exec.Limbs.
@@ -81,6 +81,18 @@ Definition ops_check (complete : bool) (r : rmember) : bool :=
   | None => negb complete
   end.
 
+(** the same, restricted to the operations up to and including the last challenge (what C04 is about) *)
+Definition ops_check_chal (complete : bool) (r : rmember) : bool :=
+  let m := member_of r in
+  let obs := map op_of_rop (r_ops r) in
+  let p := mb_proof Kl m in
+  match verifier_ops (tstmt_of Kl m) p with
+  | Some ops =>
+      let n := (length ops - length (ops_verifier_rng (p_r1 p) (p_s1 p) (p_d1 p)))%nat in
+      if complete then ops_eqb (firstn n ops) (firstn n obs) else ops_prefixb (firstn n obs) ops
+  | None => negb complete
+  end.
+
 Definition chk_verify (mode_c : N) (rs : list rmember) (draws : list (list int)) (u64s : list N)
     (wops : list rop) (msm_zero : bool)
     (obs_ok : bool) (obs_masks : list (option (list (list int))))
@@ -101,7 +113,7 @@ Definition chk_verify (mode_c : N) (rs : list rmember) (draws : list (list int))
               | None => flag (match obs_static with [] => true | _ => false end) 4
               end in
   let consistent := match consistency Kl ms with Some _ => true | None => false end in
-  let c_ops := if consistent then flag (forallb (ops_check phase1) rs) 16 else 0%N in
+  let c_ops := if consistent then (flag (forallb (ops_check_chal phase1) rs) 16 + flag (forallb (ops_check phase1) rs) 128)%N else 0%N in
   let c_w := if phase1
              then (flag (ops_prefixb (map op_of_rop wops) (weight_ops u64s (length draws))
                          && ops_prefixb (weight_ops u64s 0) (map op_of_rop wops)) 32)%N
